@@ -438,14 +438,21 @@ pub fn packed_patterns(rng: &mut Rng) -> Vec<Vec<u8>> {
 /// As `packed_patterns`, optionally forcing the minimum pattern length (which
 /// selects the Teddy fingerprint length) and capping the number of patterns.
 pub fn packed_patterns_with(rng: &mut Rng, force_min: Option<usize>, max_n: usize) -> Vec<Vec<u8>> {
-    let n = match rng.below(10) {
-        0 => 1,
-        1 | 2 | 3 => rng.range(2, 8),
-        4 | 5 => rng.range(9, 17),
-        6 => rng.range(17, 33),
-        7 => rng.range(33, 64),
-        8 => rng.range(65, 128),
-        _ => rng.range(2, 5),
+    // Half of the time the number of patterns sits on a limit of the packed
+    // implementations: 8 buckets (slim) / 16 buckets (fat), the fat/slim
+    // default switch at 32, the heuristic limits 16 / 64 and the hard limit 128.
+    let n = if rng.chance(1, 2) {
+        *rng.pick(&[1usize, 2, 7, 8, 9, 15, 16, 17, 31, 32, 33, 48, 63, 64, 65, 100, 127, 128])
+    } else {
+        match rng.below(10) {
+            0 => 1,
+            1 | 2 | 3 => rng.range(2, 8),
+            4 | 5 => rng.range(9, 17),
+            6 => rng.range(17, 33),
+            7 => rng.range(33, 64),
+            8 => rng.range(65, 128),
+            _ => rng.range(2, 5),
+        }
     };
     let n = n.min(max_n).max(1);
     // Mostly short minimum lengths (they select the Teddy fingerprint length),
